@@ -130,12 +130,7 @@ def TYPED(obj):
 
 
 def _wf_base(s):
-    d = {"base-wf": WFSET(D(s.base_offset)) if smt() else all(isinstance(x, int) and x >= 0 for x in s.base_offset)}
-    if smt():
-        for name in ("_element_type", "_delimiter_header_type", "_inner", "_tag_field_type"):
-            if s.self.fields is not None and name in s.self.fields and isinstance(s.self.fields[name], Obj):
-                d["typing-of-" + name] = TYPED(s.self.fields[name])
-    return d
+    return {"base-wf": WFSET(D(s.base_offset)) if smt() else all(isinstance(x, int) and x >= 0 for x in s.base_offset)}
 
 
 # ------------------------------------------------------------------------------------------------ union
@@ -314,6 +309,16 @@ class _IterIface:
 
     def pre(s):
         return {"base-wf": WFSET(D(s.base_offset))}
+
+
+@contract(SER + "_composite.ServiceType.iterate_fields_with_offsets", props=P)
+class _ServiceIter:
+    """The fourth override of the interface method: a service type has no fields of its own - always TypeError
+    (so the interface contract above, which has no exceptional clause, is never relied on for a service receiver: the
+    class invariant of DelimitedType excludes a service as inner type)."""
+    params = dict(base_offset=ObjOf(BLS))
+    never_returns = True
+    raises = {"TypeError": lambda s: True}
 
 
 @contract(DELIMITED + ".iterate_fields_with_offsets", props=P)
@@ -507,9 +512,6 @@ class _SerAttr:
     returns = ObjOf(ANY)
 
     raises = {"UndefinedAttributeError": lambda s: OR(NOT(EQ(s.name._value, "_bit_length_")), ISINST(s.self, SERVICE_NAME))}
-
-    def pre(s):
-        return {"typing": TYPED(s.self) if smt() and s.self.fields is None else True}
 
     def post(s):
         return {"bit-length-intrinsic": AND(
